@@ -334,7 +334,7 @@ pub fn job_c04(out_dir: &str, tier: &str, seed: u64) {
     let path = std::env::var("VERIF_REPLAY_FILE").unwrap_or_default();
     let text = std::fs::read_to_string(&path).unwrap_or_default();
     let lines: Vec<&str> = text.lines().filter(|l| l.contains("\"vdoc\"")).collect();
-    let stride = if quick { (lines.len() / 5000).max(1) } else { 1 };
+    let stride = if quick { (lines.len() / 5000).max(1) } else { (lines.len() / 60000).max(1) };
     let mut replayed = 0usize;
     for (li, line) in lines.iter().enumerate() {
         if li % stride != 0 { continue; }
